@@ -53,7 +53,7 @@ def query_unprotected(run):
     qf = os.path.join(run.scratch, "query", "Query_globals.v")
     os.makedirs(os.path.dirname(qf), exist_ok=True)
     open(qf, "w").write("From Coq Require Import String List.\nFrom Snoopy Require Import Conc.LockSkel.\nFrom Gen Require Import Gen_Conc Gen_Globals.\n"
-                        "Eval vm_compute in (unprotected tsrm_fns globals (reachable_fns fn_refs data_refs), lock_objects globals).\n")
+                        "Eval vm_compute in (unprotected tsrm_fns globals (reachable_fns fn_refs data_refs) inlined_helpers, lock_objects globals).\n")
     p = sh(["timeout", "120", "coqc", "-q", "-Q", THEORIES, "Snoopy", "-Q", run.gen, "Gen", qf], check=False)
     return re.findall(r'"([^"]+)"%string', p.stdout) or re.findall(r'"([^"]+)"', p.stdout)
 
